@@ -16,6 +16,7 @@ package main
 
 import (
 	"bytes"
+	"context"
 	"errors"
 	"fmt"
 	"io"
@@ -61,6 +62,8 @@ type Cfg struct {
 	// a second router with the same routes but another configuration (it trusts the peer as a proxy) serves the requests
 	// marked Alt: both take their contexts from the one process-wide pool
 	Two bool `json:",omitempty"`
+	// router with an observability recorder installed (its OnRequestEnd panics for requests marked RecPanic)
+	Rec bool `json:",omitempty"`
 }
 
 type routeDef struct {
@@ -263,6 +266,7 @@ type Req struct {
 	NestShare bool `json:",omitempty"`
 	Alt       bool `json:",omitempty"` // served by the second router (Cfg.Two)
 	Auth      bool `json:",omitempty"` // carries valid Basic credentials (user alice)
+	RecPanic  bool `json:",omitempty"` // the recorder's OnRequestEnd panics for this request (Cfg.Rec)
 }
 
 type Case struct {
@@ -381,13 +385,15 @@ func handle(c *router.Context, hid int, presence int, bind func(q Req) string) {
 		func() {
 			defer func() {
 				if r := recover(); r != nil {
-					if _, ok := r.(probePanic); !ok {
+					_, ok1 := r.(probePanic)
+					_, ok2 := r.(recPanic)
+					if !ok1 && !ok2 {
 						panic(r)
 					}
 				}
 			}()
 			if q.NestShare && c.Response != nil {
-				curHandler(q.Nested).ServeHTTP(c.Response, newRequest(curCase.H[q.Nested], q.Nested))
+				serveReq(curHandler(q.Nested), c.Response, curCase.H[q.Nested], q.Nested)
 				return
 			}
 			rec := httptest.NewRecorder()
@@ -399,7 +405,7 @@ func handle(c *router.Context, hid int, presence int, bind func(q Req) string) {
 				}
 				mu.Unlock()
 			}()
-			curHandler(q.Nested).ServeHTTP(rec, newRequest(curCase.H[q.Nested], q.Nested))
+			serveReq(curHandler(q.Nested), rec, curCase.H[q.Nested], q.Nested)
 		}()
 		after := snapshot(c, hid, presence)
 		mu.Lock()
@@ -420,6 +426,14 @@ func handle(c *router.Context, hid int, presence int, bind func(q Req) string) {
 		mu.Unlock()
 	}
 	dirtyIdx(c, q.Dirty, idx)
+	// the parameter strings a handler read are values of this request: keep them and look again after the history
+	mu.Lock()
+	for _, p := range v.params {
+		if p.V != "" {
+			keptStrs = append(keptStrs, keptStr{idx, p.K, p.V, strings.Clone(p.V)})
+		}
+	}
+	mu.Unlock()
 	// the error list the API hands out is a value of this request: keep it and look at it again after the history
 	if es := c.Errors(); len(es) > 0 {
 		mu.Lock()
@@ -436,6 +450,65 @@ func handle(c *router.Context, hid int, presence int, bind func(q Req) string) {
 }
 
 var errProbe = errors.New("probe error")
+
+// recPanic is what the harness's recorder panics with in OnRequestEnd (expected, not a framework panic)
+type recPanic struct{}
+
+type probeRecorder struct{}
+
+func (probeRecorder) OnRequestStart(ctx context.Context, req *http.Request) (context.Context, any) {
+	return ctx, req.Header.Get("X-RecPanic") == "1"
+}
+func (probeRecorder) WrapResponseWriter(w http.ResponseWriter, _ any) http.ResponseWriter { return w }
+func (probeRecorder) OnRequestEnd(_ context.Context, st any, _ http.ResponseWriter, _ string) {
+	if p, ok := st.(bool); ok && p {
+		panic(recPanic{})
+	}
+}
+
+// serveReq serves one request the way net/http does: the request context is cancelled as soon as ServeHTTP returns
+// (also when it panics), and whatever was registered on that context gets a chance to run before the next request.
+func serveReq(h http.Handler, w http.ResponseWriter, q Req, idx int) {
+	req := newRequest(q, idx)
+	ctx, cancel := context.WithCancel(req.Context())
+	defer func() {
+		cancel()
+		for k := 0; k < 3; k++ {
+			runtime.Gosched()
+		}
+	}()
+	for _, d := range q.Dirty {
+		if d.Kind == "D" {
+			w = &capWriter{ResponseWriter: w, left: 7} // the connection dies after a few bytes
+			break
+		}
+	}
+	h.ServeHTTP(w, req.WithContext(ctx))
+}
+
+// capWriter is a connection that accepts `left` more bytes and then fails
+type capWriter struct {
+	http.ResponseWriter
+	left int
+}
+
+func (w *capWriter) Write(b []byte) (int, error) {
+	if len(b) <= w.left {
+		w.left -= len(b)
+		return w.ResponseWriter.Write(b)
+	}
+	n, _ := w.ResponseWriter.Write(b[:w.left])
+	w.left = 0
+	return n, io.ErrShortWrite
+}
+
+type keptStr struct {
+	idx        int
+	name       string
+	got, clone string
+}
+
+var keptStrs []keptStr
 
 var markerRe = regexp.MustCompile(`<r(\d+)>`)
 
@@ -457,6 +530,13 @@ func markersOK(body string, idx int, ran bool) bool {
 		}
 	}
 	if ran {
+		if curCase != nil && idx < len(curCase.H) {
+			for _, d := range curCase.H[idx].Dirty {
+				if d.Kind == "D" {
+					return own <= 1 // the connection died before the marker
+				}
+			}
+		}
 		return own == 1
 	}
 	return own == 0
@@ -513,6 +593,14 @@ func dirtyIdx(c *router.Context, ds []Dirty, idx int) {
 			c.SetParam(d.N, d.K, d.V)
 		case "C":
 			c.SetParamCount(int32(d.N))
+		case "D":
+			// stream to a connection that dies after a few bytes (the request's writer is capped for this program)
+			_ = c.DataFromReader(200, -1, "text/plain", strings.NewReader(strings.Repeat("d", 300)), nil)
+		case "Y":
+			// AllParams() hands out a copy: changing it must not be visible to anyone
+			if m := c.AllParams(); m != nil {
+				m[d.K] = d.V
+			}
 		case "X":
 			saved := c.Request.Header.Get("Accept")
 			c.Request.Header.Set("Accept", d.K)
@@ -674,6 +762,9 @@ func build1(c Cfg, extra []router.Option) http.Handler {
 		r = a.Router()
 	} else {
 		r = router.MustNew(append(routerOpts(c), extra...)...)
+		if c.Rec {
+			r.SetObservabilityRecorder(probeRecorder{})
+		}
 	}
 	for _, d := range table {
 		if !active(d, c) {
@@ -844,6 +935,9 @@ func newRequest(q Req, idx int) *http.Request {
 	req.Header.Set("X-Forwarded-For", forwardedFor) // honoured only by a router that trusts the peer
 	if q.Auth {
 		req.SetBasicAuth("alice", "pw")
+	}
+	if q.RecPanic {
+		req.Header.Set("X-RecPanic", "1")
 	}
 	return req
 }
@@ -1062,6 +1156,7 @@ func runHistory(id string, cs Case) string {
 	mu.Lock()
 	views = map[int]*probeView{}
 	kept = nil
+	keptStrs = nil
 	broken = false
 	curHandler = pick
 	curCase = &cs
@@ -1080,6 +1175,9 @@ func runHistory(id string, cs Case) string {
 				if _, ok := r.(probePanic); ok && cs.H[i].Panic {
 					return // the probe handler's own panic, no recovery middleware: expected
 				}
+				if _, ok := r.(recPanic); ok {
+					return // the harness's recorder panicked in its end callback: expected
+				}
 				pmu.Lock()
 				panicked = true
 				pmu.Unlock()
@@ -1093,7 +1191,7 @@ func runHistory(id string, cs Case) string {
 			}
 			mu.Unlock()
 		}()
-		pick(i).ServeHTTP(rec, newRequest(cs.H[i], i))
+		serveReq(pick(i), rec, cs.H[i], i)
 		progress.Add(1)
 		mu.Lock()
 		v := views[i]
@@ -1132,6 +1230,11 @@ func runHistory(id string, cs Case) string {
 	mu.Lock()
 	if broken {
 		panicked = true // a handler ran on a context whose Request another request had already cleared
+	}
+	for _, k := range keptStrs {
+		if v := views[k.idx]; k.got != k.clone && v != nil {
+			v.unstable = true // a parameter string handed to request k.idx changed afterwards
+		}
 	}
 	for _, k := range kept {
 		same := len(k.list) == len(k.copy)
@@ -1206,6 +1309,10 @@ func runHistory(id string, cs Case) string {
 				l.Tok("C").I64(int64(d.N))
 			case "X":
 				l.Tok("X").Str(d.K)
+			case "D":
+				l.Tok("D")
+			case "Y":
+				l.Tok("Y").Str(d.K).Str(d.V)
 			}
 		}
 		if o.q.Panic && !recovered(cs.C, o.q) {
@@ -1333,6 +1440,12 @@ func genDirty(r *hx.Rand) []Dirty {
 			ds = append(ds, Dirty{Kind: "X", K: hx.Pick(r, accepts[2:])})
 		}
 	}
+	if r.Chance(1, 6) {
+		ds = append(ds, Dirty{Kind: "Y", K: hx.Pick(r, []string{"stale", "id", "zz"}), V: "leak-" + v(r)})
+	}
+	if r.Chance(1, 10) {
+		ds = append(ds, Dirty{Kind: "D"})
+	}
 	return ds
 }
 
@@ -1355,6 +1468,9 @@ func genReq(r *hx.Rand, c Cfg) Req {
 		{"catchall-vs-param", "GET", "/f/" + v(r) + hx.Pick(r, []string{"/meta", "/raw", "", "/rev/" + v(r) + "/diff", "/rev/" + v(r) + "/blame", "/rev"})},
 		{"non-origin-target", hx.Pick(r, []string{"OPTIONS", "GET"}), hx.Pick(r, []string{"*", "relative", "host.example:443"})},
 		{"basicauth", "GET", "/ba/" + v(r)},
+		// parameter values with control characters (a decoded %0A): whatever the framework does with them, a string it
+		// handed out must not change afterwards
+		{"ctl-param", "GET", hx.Pick(r, []string{"/d/ali\nce", "/d/bob\tby", "/d/a\nb/e/c\rd", "/w/x\ny/z"})},
 		{"ver-static", "GET", "/vs"},
 		{"ver-only-method", "PUT", hx.Pick(r, []string{"/vput", "/vput/" + v(r), "/vput/" + v(r) + "/x", "/vs"})},
 		{"ver-param", "GET", "/vd/" + v(r)},
@@ -1500,6 +1616,33 @@ func witnesses() []Case {
 			{Method: "GET", Path: "/f/7/raw", Class: "catchall-vs-param"},
 			{Method: "GET", Path: "/f/7/meta", Class: "catchall-vs-param"},
 			{Method: "GET", Path: "/f/7/rev/3/blame", Class: "catchall-vs-param"},
+			{Method: "GET", Path: "/s/a", Class: "static"},
+		}},
+		// round 6: a stream to a dying connection (whatever was registered on the request context runs after ServeHTTP
+		// returned), a recorder whose end callback panics followed by overlapping requests, parameter strings with control
+		// characters kept past the request, a handler that edits the map AllParams() returned
+		{C: Cfg{}, H: []Req{
+			{Method: "GET", Path: "/d/1", Dirty: []Dirty{{Kind: "D"}}, Class: "param"},
+			{Method: "GET", Path: "/s/a", Class: "static"},
+			{Method: "GET", Path: "/d/2", Class: "param"},
+		}},
+		{C: Cfg{Compiled: true, Versioning: true, Rec: true}, H: []Req{
+			{Method: "GET", Path: "/d/bob", RecPanic: true, Class: "param"},
+			{Method: "GET", Path: "/vs", Ver: "v1", RecPanic: true, Class: "ver-static"},
+			{Method: "GET", Path: "/d/alice", Nested: 3, Class: "param"},
+			{Method: "GET", Path: "/d/carol", Inner: true, Class: "param"},
+			{Method: "GET", Path: "/s/a", Nested: 5, Class: "static"},
+			{Method: "GET", Path: "/d/dave", Inner: true, Class: "param"},
+		}},
+		{C: Cfg{}, H: []Req{
+			{Method: "GET", Path: "/d/ali\nce", Class: "ctl-param"},
+			{Method: "GET", Path: "/d/bob\tby", Class: "ctl-param"},
+			{Method: "GET", Path: "/d/a\nb/e/c\rd", Class: "ctl-param"},
+		}},
+		{C: Cfg{}, H: []Req{
+			{Method: "GET", Path: "/s/a", Dirty: []Dirty{{Kind: "Y", K: "stale", V: "leak"}}, Class: "static"},
+			{Method: "GET", Path: "/", Class: "static"},
+			{Method: "GET", Path: "/d/7", Dirty: []Dirty{{Kind: "Y", K: "zz", V: "leak"}}, Class: "param"},
 			{Method: "GET", Path: "/s/a", Class: "static"},
 		}},
 		// two routers on the one pool: the second trusts the peer as a proxy; a context that keeps the other router's
@@ -1652,6 +1795,9 @@ func main() {
 				if cs.H[i].Alt {
 					st.Count("served-by-the-second-router")
 				}
+				if cs.H[i].RecPanic {
+					st.Count("recorder-end-callback-panics")
+				}
 			}
 			st.Count(fmt.Sprintf("cfg:compiled=%v,versioning=%v,noRoute=%v,app=%v,obs=%v", cs.C.Compiled, cs.C.Versioning, cs.C.NoRoute, cs.C.App, cs.C.Obs))
 			st.Counters["requests"] += len(cs.H)
@@ -1668,6 +1814,7 @@ func main() {
 			c := Cfg{Compiled: r.Chance(1, 2), Versioning: r.Chance(2, 3), NoRoute: r.Chance(1, 2), App: r.Chance(1, 4)}
 			c.Obs = c.App && r.Chance(1, 2)
 			c.Two = !c.App && r.Chance(1, 3)
+			c.Rec = !c.App && r.Chance(1, 3)
 			n := r.Range(2, 40)
 			h := make([]Req, n)
 			for j := range h {
@@ -1679,6 +1826,12 @@ func main() {
 					h[j].Nested, h[j+1].Inner = j+1, true
 					h[j].NestShare = r.Chance(1, 3) // the nested request writes through this request's writer
 					j++
+				}
+			}
+			// the recorder's end callback panics for some requests (after the context went back to the pool)
+			for j := range h {
+				if c.Rec && r.Chance(1, 6) {
+					h[j].RecPanic = true
 				}
 			}
 			// handlers that panic after dirtying the context (no recovery middleware)
